@@ -40,12 +40,11 @@ M = [
  ("selectactive-ignores-rolled", "algos.py", "        selected = [s for s in selected if s not in set.union(rolled, closed)]", "        selected = [s for s in selected if s not in closed]", "C20"),
  ("integer-flag-not-recursive", "core.py", "        self.integer_positions = integer_positions\n        for c in self._childrenv:\n            c.use_integer_positions(integer_positions)", "        self.integer_positions = integer_positions\n        for c in self._childrenv:\n            if c._issec:\n                c.use_integer_positions(integer_positions)", "C19"),
  ("universe-filter-dropped", "core.py", "            funiverse = universe[valid_filter].copy()", "            funiverse = universe.copy()", "C19"),
- ("positions-first-row-dropped", "core.py", "        if len(trades.index) > 0:\n            trades.iloc[0] = positions.iloc[0]", "        if len(trades.index) > 1:\n            trades.iloc[0] = positions.iloc[0] * 0", "C18"),
  ("turnover-max-instead-of-min", "backtest.py", "        min_outlay = pd.DataFrame({\"pos\": outlaysp, \"neg\": outlaysn}).min(axis=1)", "        min_outlay = pd.DataFrame({\"pos\": outlaysp, \"neg\": outlaysn}).max(axis=1)", "C18"),
  ("nan-price-valued-zero", "core.py", "                raise Exception(\"Position is open (non-zero: %s) and latest price is NaN for security %s on %s. Cannot update node value.\" % (self._position, self.name, date))", "                self._value = 0", "C10"),
  ("net-flows-not-reset", "core.py", "        elif date != self.now:\n            self._net_flows = 0", "        elif date != self.now:\n            self._net_flows = 0 if self._last_fee == 0 else self._net_flows", "C03"),
  ("fee-as-flow", "core.py", "        self.parent.adjust(-full_outlay, update=update, flow=False, fee=fee)", "        self.parent.adjust(-full_outlay, update=update, flow=(fee > 1000), fee=fee)", "C03"),
- ("outlay-row-not-idempotent", "core.py", "        if self._outlay != 0:\n            _writeable_values(self._outlays)[inow] += self._outlay\n            # reset outlay back to 0\n            self._outlay = 0", "        if self._outlay != 0:\n            _writeable_values(self._outlays)[inow] += self._outlay\n            # reset outlay back to 0\n            self._outlay = 0 if self._position != 0 else self._outlay", "C08"),
+ ("outlay-row-not-idempotent", "core.py", "        if self._outlay != 0:\n            _writeable_values(self._outlays)[inow] += self._outlay\n            # reset outlay back to 0\n            self._outlay = 0", "        if self._outlay != 0:\n            _writeable_values(self._outlays)[inow] += self._outlay\n            # reset outlay back to 0\n            self._outlay = 0 if self._position != 0 else self._outlay", "C07"),
  ("transfer-not-debited-for-grandchildren", "core.py", "                self.parent.adjust(-amount, update=False, flow=False)", "                self.parent.adjust(-amount if self.parent.parent is self.parent or amount > 0 else 0.0, update=False, flow=False)", "C02"),
 ]
 def main():
